@@ -16,7 +16,7 @@ REPO = os.environ.get("SEEDCHECK_REPO", "/repo")
 VERIF = os.environ.get("SEEDCHECK_VERIF", "/verif")
 
 def sh(cmd, cwd=None, timeout=1800):
-    p = subprocess.run(cmd, shell=True, cwd=cwd, env=ENV, capture_output=True, text=True, timeout=timeout)
+    p = subprocess.run(cmd, shell=True, cwd=cwd, env=ENV, capture_output=True, text=True, errors="replace", timeout=timeout)
     return p.returncode, p.stdout + p.stderr
 
 def main():
